@@ -484,7 +484,10 @@ func (s *Solver) Check(extra *Term, wantModel []*Term) (checkResult, map[string]
 		s.sync(b)
 		res, model, note := b.check(extra, wantModel, st.ms)
 		if res != resUnknown {
-			if s.cross != "" && s.cross != kind {
+			if s.cross != "" && s.cross != kind && strings.HasPrefix(kind, "z3") {
+				// thorough tier: every query decided by z3 4.8.12 is re-decided by the
+				// cross solver (short budget; unknown = no opinion)
+				s.crossKind, s.crossMs = s.cross, 2000
 				if cb := s.get(s.cross); cb != nil {
 					s.sync(cb)
 					r2, _, _ := cb.check(extra, nil, s.timeoutMs)
